@@ -33,7 +33,7 @@ BOUNDS = {
 OUTSIDE = 'type subsets beyond the listed family; whole grids are covered through the cell-wise lemma rather than by enumerating grids'
 ASSUMPTIONS = ['Box content is not part of GridObject equality (Box(a) == Box(b) by design: boxes cannot be represented in state); objects of the observation spaces compare likewise']
 STUBS = ['Duck grid object']
-TIME_LIMIT = {'quick': 300, 'thorough': 1200}
+TIME_LIMIT = {'quick': 300, 'thorough': 3000}
 
 
 def same_duck(a, b):
